@@ -221,6 +221,33 @@ Theorem c10_copy_copy_lookup : forall (D : Type) (L : layers D) ns1 b ns2 k,
 Proof. exact @copy_copy_lookup. Qed.
 Print Assumptions c10_copy_copy_lookup.
 
+(** A {% block %} rendered through {% extends %} (RenderContext.copy with
+    block_scope, after proposed_fixes/C10/0001): in the block's context a name
+    resolves as in the page at the block tag, with the [block] drop pushed ... *)
+Theorem c10_block_lookup : forall (D : Type) (L : layers D) (ns : dict D) k,
+  NoDup (keys (w_tg (l_world L))) ->
+  st_lookup (ctx_copy_block (build L) ns) k =
+  spec_lookup (l_world L)
+    {| a_blocks := ns :: l_blocks L; a_locals := l_locals L; a_counters := l_counters L |} k.
+Proof. exact @block_lookup. Qed.
+Print Assumptions c10_block_lookup.
+
+(** ... and a variable assigned IN the block comes after every block-scoped
+    binding that encloses the block in the page (for / tablerow / with
+    namespaces, the block drop) and before everything else of the page: the
+    documented order (block-scoped binding, then template-local) also holds on
+    this path. *)
+Theorem c10_block_assign_does_not_shadow_enclosing :
+  forall (D : Type) (L : layers D) (ns : dict D) k v k',
+  NoDup (keys (w_tg (l_world L))) ->
+  st_lookup (st_assign (ctx_copy_block (build L) ns) k v) k' =
+  match first_some (map (assoc k') (ns :: l_blocks L)) with
+  | Some x => Some x
+  | None => if str_eqb k' k then Some v else st_lookup (build L) k'
+  end.
+Proof. exact @block_assign_does_not_shadow_enclosing. Qed.
+Print Assumptions c10_block_assign_does_not_shadow_enclosing.
+
 (** data_unchanged.  For ANY sequence of chain operations — raw pushes and
     pops included — from the construction over ANY caller data, completed or
     aborted: the caller's four mappings are what they were.  In this model a
